@@ -1,6 +1,9 @@
-//! Group driver: runs the REAL kanidm code and records observed traces (ndjson) which TLC
-//! validates against the TLA+ specifications in /verif/spec. See /verif/DESIGN.md.
+//! Group driver `auth` (C27 C28 C29 C31 C35 C37): runs the REAL kanidm code and records observed
+//! traces (ndjson) which TLC validates against the TLA+ specifications in /verif/spec.
 use kvc::util::Opts;
+mod c29;
+mod c35;
+mod ca_data;
 
 fn main() {
     let args: Vec<String> = std::env::args().collect();
@@ -10,8 +13,9 @@ fn main() {
     }
     let opts = Opts::parse(&args[2..]);
     let rc = match args[1].as_str() {
+        "c29" => c29::run(&opts),
+        "c35" => c35::run(&opts),
         other => {
-            let _ = &opts;
             eprintln!("unknown subcommand {other}");
             2
         }
